@@ -33,7 +33,8 @@
 
    Restrictions (guards [name_ok]/[op_ok]; an operation outside them is [Oom]):
      Rock Ridge 1.09/1.10/1.12, interchange level 3 (level 1 behaves the same: the generated
-     RR_MOVED names are not length-checked), no Joliet/UDF/El Torito/XA, fresh image (no reopen),
+     RR_MOVED names are not length-checked), no Joliet/UDF/El Torito/XA, histories start from a
+     fresh image ([Reopen] = write_fp + open_fp in the middle of a history leaves the state alone),
      identifiers valid for the level and short enough to need no continuation area (they are
      opaque byte strings here: _check_iso9660_directory/_filename are Model/Names.v), no path
      component named RR_MOVED (so the user never works inside RR_MOVED and cd1f033 never fires),
@@ -101,7 +102,8 @@ Inductive op :=
 | AddDir (p : list name) (rr : name)
 | RmDir (p : list name)
 | AddLeaf (sym : bool) (p : list name) (rr : name)
-| RmLeaf (p : list name).
+| RmLeaf (p : list name)
+| Reopen.                       (* write_fp, then open_fp of the written bytes, then go on editing *)
 
 Inductive outcome := Acc | Ref | Oom.
 
@@ -336,6 +338,7 @@ Definition op_ok (o : op) : bool :=
   | RmDir p => path_ok p
   | AddLeaf _ p r => path_ok p && rr_ok r
   | RmLeaf p => path_ok p
+  | Reopen => true
   end.
 
 Definition step (s : state) (o : op) : state * outcome :=
@@ -345,6 +348,7 @@ Definition step (s : state) (o : op) : state * outcome :=
        | RmDir p => rm_dir s p
        | AddLeaf sy p r => add_leaf s sy p r
        | RmLeaf p => rm_leaf s p
+       | Reopen => (s, Acc)     (* the parsed object graph is the one that was written *)
        end.
 
 Fixpoint run (s : state) (ops : list op) : state :=
@@ -455,6 +459,7 @@ Definition spec_step (t : list lnode) (o : op) : list lnode :=
       | Some (q, nm), Some (LLeaf _ _ _) => or_same t (l_rm t q nm)
       | _, _ => t
       end
+  | Reopen => t
   end.
 Definition logical_spec (ops : list op) : list lnode := fold_left spec_step ops [].
 
